@@ -4041,6 +4041,16 @@ class IniFileStore(Store):
             The unquoted value.
         """
         if value and isinstance(value, str):
+            # quote() uses triple quotes for values containing a newline or
+            # both kinds of quotes; _unquote only removes a single quote
+            # character on each side.
+            for triple in ('"""', "'''"):
+                if (
+                    len(value) >= 6
+                    and value.startswith(triple)
+                    and value.endswith(triple)
+                ):
+                    return value[3:-3]
             # _unquote doesn't handle None nor empty strings nor anything that
             # is not a string, really.
             value = self._config_obj._unquote(value)
